@@ -13,7 +13,7 @@ model that no longer applies.
 import os
 import re
 
-from extract import src, strip_comments, write, ExtractError, fn_body, define, REPO
+from extract import src, strip_comments, write, ExtractError, fn_body_x as fn_body, define, REPO
 
 
 def _enum_value(text, name):
